@@ -372,15 +372,15 @@ Proof. induction a as [|x a IH]; intros; cbn; [reflexivity|]. rewrite IH. reflex
 Definition not_quote_head (q : ascii) (rest : string) : Prop :=
   match rest with EmptyString => True | String c _ => Ascii.eqb c q = false end.
 
-Lemma read_lit_escape : forall cf s buf rest fuel,
+Lemma read_lit_escape : forall cf s first buf rest fuel,
     d_ctrlz_escape cf = false ->
     (d_drop_nul cf = true -> has_char (ch 0) s = false) ->
     not_quote_head c_quote rest ->
-    String.length (escape_lit cf s) < fuel ->
-    read_lit fuel (escape_lit cf s ++ String c_quote rest)%string buf = Some ((buf ++ s)%string, rest).
+    String.length (escape_lit_at cf first s) < fuel ->
+    read_lit fuel (escape_lit_at cf first s ++ String c_quote rest)%string buf = Some ((buf ++ s)%string, rest).
 Proof.
-  intros cf s. induction s as [|c s IH]; intros buf rest fuel Hz Hn Hq Hlen.
-  - cbn [escape_lit append]. destruct fuel as [|f]; [cbn in Hlen; lia|]. cbn [read_lit].
+  intros cf s. induction s as [|c s IH]; intros first buf rest fuel Hz Hn Hq Hlen.
+  - cbn [escape_lit_at append]. destruct fuel as [|f]; [cbn in Hlen; lia|]. cbn [read_lit].
     rewrite Ascii.eqb_refl. rewrite append_nil_s.
     destruct rest as [|c2 r2]; [reflexivity|]. unfold not_quote_head in Hq. rewrite Hq. reflexivity.
   - assert (Hn' : d_drop_nul cf = true -> has_char (ch 0) s = false).
@@ -391,11 +391,15 @@ Proof.
       apply negb_false_iff in Hn. apply andb_prop in Hn. destruct Hn as [Hn _]. apply negb_true_iff in Hn. exact Hn. }
     assert (Happ : forall x, ((buf ++ String x "") ++ s)%string = (buf ++ String x s)%string)
       by (intros x; rewrite append_assoc_s; reflexivity).
-    cbn [escape_lit] in *.
+    cbn [escape_lit_at] in *.
     destruct (Ascii.eqb_spec c c_quote) as [E|Nq].
-    { subst c. cbn [append String.length] in *. destruct fuel as [|f]; [lia|]. cbn [read_lit].
-      rewrite !Ascii.eqb_refl.
-      rewrite IH; [rewrite Happ; reflexivity|assumption|assumption|assumption|lia]. }
+    { subst c. destruct (first && negb (d_triple_quote cf)).
+      - cbn [append String.length] in *. destruct fuel as [|f]; [lia|]. cbn [read_lit].
+        change (Ascii.eqb c_bslash c_quote) with false. cbn iota. rewrite !Ascii.eqb_refl. rewrite !orb_true_r. cbn [orb].
+        rewrite IH; [rewrite Happ; reflexivity|assumption|assumption|assumption|lia].
+      - cbn [append String.length] in *. destruct fuel as [|f]; [lia|]. cbn [read_lit].
+        rewrite !Ascii.eqb_refl.
+        rewrite IH; [rewrite Happ; reflexivity|assumption|assumption|assumption|lia]. }
     destruct (Ascii.eqb_spec c c_bslash) as [E|Nb].
     { subst c. cbn [append String.length] in *. destruct fuel as [|f]; [lia|]. cbn [read_lit].
       change (Ascii.eqb c_bslash c_quote) with false. cbn iota. rewrite Ascii.eqb_refl. cbn [orb].
@@ -423,17 +427,38 @@ Proof.
     rewrite IH; [rewrite Happ; reflexivity|reflexivity|assumption|assumption|lia].
 Qed.
 
+(* the escaped text never begins with two quote characters: the literal does not open a triple-quoted string *)
+Lemma escape_no_triple : forall cf s rest,
+    d_ctrlz_escape cf = false -> d_triple_quote cf = false -> not_quote_head c_quote rest ->
+    two_quotes (escape_lit_at cf true s ++ String c_quote rest)%string = false.
+Proof.
+  intros cf s rest Hz Ht Hq. induction s as [|c s IH].
+  - cbn [escape_lit_at append two_quotes]. destruct rest as [|c2 r2]; [reflexivity|].
+    unfold not_quote_head in Hq. rewrite Hq. apply andb_false_r.
+  - cbn [escape_lit_at]. rewrite Ht. cbn [negb andb].
+    destruct (Ascii.eqb_spec c c_quote) as [E|Nq]; [reflexivity|].
+    destruct (Ascii.eqb_spec c c_bslash) as [E|Nb]; [reflexivity|].
+    destruct (Ascii.eqb_spec c (ch 0)) as [E|N0].
+    { destruct (d_drop_nul cf); [exact IH|]. subst c. cbn [append two_quotes].
+      destruct (escape_lit_at cf false s ++ String c_quote rest)%string; reflexivity. }
+    destruct (Ascii.eqb_spec c (ch 10)); [reflexivity|]. destruct (Ascii.eqb_spec c (ch 13)); [reflexivity|].
+    rewrite Hz, andb_false_r. cbn [append two_quotes].
+    destruct (escape_lit_at cf false s ++ String c_quote rest)%string; [reflexivity|].
+    destruct (Ascii.eqb_spec c c_quote); [contradiction|reflexivity].
+Qed.
+
 (* what the tokenizer reads from the text of a string literal is its content (ASCII contents: the real reader also
    turns typographic quotes into quote characters, which no escape protects) *)
 Theorem literal_roundtrip : forall cf s rest,
-    d_ctrlz_escape cf = false ->
+    d_ctrlz_escape cf = false -> d_triple_quote cf = false ->
     (d_drop_nul cf = true -> has_char (ch 0) s = false) ->
     not_quote_head c_quote rest ->
     read_lit_text (lit_text cf s ++ rest)%string = Some (s, rest).
 Proof.
-  intros cf s rest Hz Hn Hq. unfold lit_text, read_lit_text. cbn [append].
-  rewrite append_assoc_s. cbn [append].
-  rewrite (read_lit_escape cf s "" rest); try assumption; [reflexivity|].
+  intros cf s rest Hz Ht Hn Hq. unfold lit_text, read_lit_text, escape_lit. cbn [append].
+  rewrite Ascii.eqb_refl. rewrite append_assoc_s. cbn [append].
+  rewrite (escape_no_triple cf s rest Hz Ht Hq).
+  rewrite (read_lit_escape cf s true "" rest); try assumption; [reflexivity|].
   rewrite !length_append_s. cbn [String.length]. lia.
 Qed.
 
@@ -496,10 +521,12 @@ Theorem refuted_dot_safe :
   exists ts, print_expr print_tree (ast_of w_dotted) = Some ts /\ parse_expr_top no_defects 0 (ts ++ eof_stop) <> Val (ast_of w_dotted, eof_stop).
 Proof. repeat split; try reflexivity. eexists; split; [vm_compute; reflexivity|vm_compute; discriminate]. Qed.
 
-Theorem refuted_ctrlz_escape : exists s, read_lit_text (lit_text (CFlags true false) s) <> Some (s, "").
+Theorem refuted_ctrlz_escape : exists s, read_lit_text (lit_text (CFlags true false false) s) <> Some (s, "").
 Proof. exists (String (ch 26) ""). vm_compute. discriminate. Qed.
 Theorem refuted_drop_nul : exists s, read_lit_text (lit_text codec_tree s) <> Some (s, "").
 Proof. exists (String "a"%char (String (ch 0) "b")). vm_compute. discriminate. Qed.
+Theorem refuted_triple_quote : exists s, read_lit_text (lit_text (CFlags false false true) s) <> Some (s, "").
+Proof. exists (String c_quote "x"). vm_compute. discriminate. Qed.
 
 (* non-vacuity *)
 Example ex_mixed_printable : printable print_ok ex_mixed = true. Proof. reflexivity. Qed.
